@@ -343,14 +343,14 @@ pub fn compare(op: &str, a: &Value, b: &Value) -> Value {
         "==" => Value::Bool(deep_eq(a, b)),
         "!=" => Value::Bool(!deep_eq(a, b)),
         _ => match (a, b) {
-            (Value::Number(x), Value::Number(y)) => {
-                let (x, y) = (num_f(x), num_f(y));
-                let eq = num_eq(a.as_number().unwrap(), b.as_number().unwrap());
+            (Value::Number(_), Value::Number(_)) => {
+                // ordering is exact numeric order (only '==' is tolerant)
+                let c = key_cmp(a, b);
                 Value::Bool(match op {
-                    "<" => x < y && !eq,
-                    "<=" => x < y || eq,
-                    ">" => x > y && !eq,
-                    ">=" => x > y || eq,
+                    "<" => c == std::cmp::Ordering::Less,
+                    "<=" => c != std::cmp::Ordering::Greater,
+                    ">" => c == std::cmp::Ordering::Greater,
+                    ">=" => c != std::cmp::Ordering::Less,
                     _ => unreachable!(),
                 })
             }
@@ -540,7 +540,10 @@ pub fn key_cmp(a: &Value, b: &Value) -> std::cmp::Ordering {
 
 /// keys produced by an expref for the by-functions: all numbers or all strings
 fn by_keys(ev: &Eval, xs: &[Value], x: &N, at: usize, fname: &str) -> R<Vec<Value>> {
-    let mut keys = Vec::new();
+    // element by element, in order: evaluate the key, then check its type
+    // (the first error in evaluation order wins)
+    let mut keys: Vec<Value> = Vec::new();
+    let mut first_type: Option<&'static str> = None;
     for e in xs {
         let k = match ev.ev(x, e)? {
             V::J(v) => v,
@@ -548,18 +551,21 @@ fn by_keys(ev: &Eval, xs: &[Value], x: &N, at: usize, fname: &str) -> R<Vec<Valu
                 return Err(ferr(ErrClass::InvalidType, at, format!("{}: expref key", fname)))
             }
         };
-        keys.push(k);
-    }
-    if let Some(first) = keys.first() {
-        let t = type_name(first);
-        if t != "number" && t != "string" {
-            return Err(ferr(ErrClass::InvalidType, at, format!("{}: key type {}", fname, t)));
-        }
-        for k in &keys {
-            if type_name(k) != t {
-                return Err(ferr(ErrClass::InvalidType, at, format!("{}: mixed key types", fname)));
+        let t = type_name(&k);
+        match first_type {
+            None => {
+                if t != "number" && t != "string" {
+                    return Err(ferr(ErrClass::InvalidType, at, format!("{}: key type {}", fname, t)));
+                }
+                first_type = Some(t);
+            }
+            Some(ft) => {
+                if t != ft {
+                    return Err(ferr(ErrClass::InvalidType, at, format!("{}: mixed key types", fname)));
+                }
             }
         }
+        keys.push(k);
     }
     Ok(keys)
 }
@@ -837,16 +843,17 @@ pub fn classify_number_text(s: &str) -> NumText {
             _ => NumText::Unclear, // out of range for a double
         };
     }
-    // clearly not a number: no digit at all, or valid JSON of another type
-    let has_digit = s.chars().any(|c| c.is_ascii_digit());
-    if !has_digit {
-        return NumText::NotANumber;
+    // a strict number padded with JSON whitespace only (SP, TAB, LF, CR): the
+    // implementation's JSON reader skips it, the specification does not say
+    let trimmed = s.trim_matches(|c| c == ' ' || c == '\t' || c == '\n' || c == '\r');
+    if trimmed.len() != s.len() {
+        if let NumText::Number(_) | NumText::Unclear = classify_number_text(trimmed) {
+            return NumText::Unclear;
+        }
     }
-    match serde_json::from_str::<Value>(s) {
-        Ok(Value::Number(_)) => NumText::Unclear, // padded number
-        Ok(_) => NumText::NotANumber,             // "[1]", "\"1\"", {"a":1}
-        Err(_) => NumText::Unclear,
-    }
+    // everything else is not a JSON number: other JSON types, other paddings
+    // (NBSP, U+2028, ...), "1.", "+1", "0x1", words
+    NumText::NotANumber
 }
 
 impl Funcs for Builtins {
